@@ -106,6 +106,7 @@ def run(tier, seed, replay=None):
     driver.session()
     from jesse.store import store
     scases, sobs = [], []
+    n_batches = 0
     for i in range(400 if tier == 'quick' else 5000):
         ops = []
         cur = rng.randrange(1, 50)
@@ -145,15 +146,34 @@ def run(tier, seed, replay=None):
         tf = rng.choice(['1m', '1m', '5m'])
         if tf != '1m':
             ops = [o for o in ops if o[0] == 'add']
+        # runs of consecutive single additions are sometimes handed over in ONE call of batch_add_candle (warm-up injection, required candles): outside
+        # live mode that is a fold of add_candle, so the model and the oracle keep seeing single additions; the first run starts on the EMPTY store
+        if rng.random() < 0.5:
+            j, bid = 0, 0
+            while j < len(ops):
+                k = j
+                while k < len(ops) and ops[k][0] == 'add': k += 1
+                if k - j >= 2 and (j == 0 or rng.random() < 0.5):
+                    bid += 1
+                    m_ = rng.randrange(2, min(k - j, 8) + 1)
+                    for q_ in range(j, j + m_): ops[q_] = ('add', ops[q_][1], bid)
+                j = max(k, j + 1)
         key = f'Sandbox-BTC-USDT-{tf}'
         if key not in store.candles.storage:
             from jesse.libs import DynamicNumpyArray
             store.candles.storage[key] = DynamicNumpyArray((rng.choice([3, 10, 60]), 6))
         store.candles.storage[key].flush()
         ok = True
-        for o in ops:
+        done_batches = set()
+        for oi, o in enumerate(ops):
             try:
-                if o[0] == 'add':
+                if o[0] == 'add' and len(o) == 3:
+                    if o[2] not in done_batches:
+                        done_batches.add(o[2])
+                        rows_ = [x[1] for x in ops[oi:] if x[0] == 'add' and len(x) == 3 and x[2] == o[2]]
+                        store.candles.batch_add_candle(np.array([[t, g, g, g, g, g] for (t, g) in rows_], dtype=float), 'Sandbox', 'BTC-USDT', tf, with_generation=False)
+                        n_batches += 1
+                elif o[0] == 'add':
                     t, g = o[1]
                     store.candles.add_candle(np.array([t, g, g, g, g, g], dtype=float), 'Sandbox', 'BTC-USDT', tf, with_execution=False, with_generation=False)
                 else:
@@ -212,9 +232,9 @@ def run(tier, seed, replay=None):
                   [{'fill': {'present_minutes': [b['timestamp'] // M for b in fcases[5][0]], 'start': fcases[5][1] // M, 'end': fcases[5][2] // M}},
                    {'store_ops': scases[0][:6]}],
                   f'every subset of present minutes for intervals up to {maxn} minutes; random intervals up to 1500 minutes with duplicates, off-grid and '
-                  'out-of-interval candles, shuffled batches; random histories of new / repeated / older / zero timestamps and bulk batches (fresh, '
+                  'out-of-interval candles, shuffled batches; random histories of new / repeated / older / zero timestamps , runs of single additions handed over through batch_add_candle (the first one on the empty store) and bulk batches (fresh, '
                   'overlapping fully or partly, too old)')
-    res.extra.update({'fill_cases': len(fcases), 'store_histories': len(scases), 'monitor_evaluations': len(scases),
+    res.extra.update({'fill_cases': len(fcases), 'store_histories': len(scases), 'batch_add_candle_calls': n_batches, 'monitor_evaluations': len(scases),
                       'store_histories_that_raise': sum(1 for r in sobs if r is None), 'mismatch_counts': {k: len(v) for k, v in bad.items()}})
     seen = set()
     for i, ((batch, s, e), o) in enumerate(zip(fcases, fobs)):
